@@ -13,8 +13,9 @@ from harness.validate import validate
 
 FLAGS = {"twin_diverged", "repeat", "initial_order", "scheduler_raised", "outside_domain"}      # (premature "nothing left": C06, known finding F22)
 DILL_KINDS = ["fifo_random", "fifo_random_dup", "fifo_grid", "hb_random", "hb_random_promo", "synchb", "dehb", "pbt", "regevo",
-              "hbt_pasha", "hbt_rush_stopping", "hbt_rush_promotion", "hbt_cost_promotion", "moasha", "median"]
-STATE_KINDS = ["fifo_random", "fifo_random_dup", "fifo_grid", "hb_random"]
+              "hbt_pasha", "hbt_rush_stopping", "hbt_rush_promotion", "hbt_cost_promotion", "moasha", "median",
+              "fifo_grid_dup", "fifo_random_restrict"]
+STATE_KINDS = ["fifo_random", "fifo_random_dup", "fifo_grid", "hb_random", "fifo_grid_dup", "fifo_random_restrict"]
 GP_DILL = ["fifo_bayesopt", "hb_bayesopt"]
 GP_STATE = ["fifo_bayesopt", "hb_bayesopt"]
 
@@ -59,6 +60,8 @@ def campaign(rep, kinds, how, hists, seed, per_kind, tag, space=None):
         for j in range(per_kind):
             name = space or list(c06.P2E)[(j + n) % len(c06.P2E)]
             p2e = [] if space else c06.P2E[name][(j // 3 + j) % len(c06.P2E[name])]
+            if kind == "fifo_random_restrict":
+                p2e = []        # (initial configurations outside the restriction are dropped by design: none are given)
             h = hists[(j * 5 + n) % len(hists)]
             _, b = twin_run(kind, name, p2e, seed + j, h, how)
             traces.append(b.trace(len(traces) + 1))
